@@ -628,3 +628,19 @@ def _blen(ex, ins):
 
 
 pure('strings.ReplaceAll')
+
+@model('strconv.ParseInt', doc='total function of (string, base, bit size): a value and an error (two uninterpreted functions); a nil error means the value is within the bit size')
+def _parseint(ex, ins):
+    vc = ex.vc
+    a = _args(ex, ins)
+    fv = vc.ufun('ext.strconv.ParseInt.val', [x.sort for x in a], 'Int')
+    fe = vc.ufun('ext.strconv.ParseInt.err', [x.sort for x in a], 'Any')
+    args = ' '.join(x.term for x in a)
+    val = V('(%s %s)' % (fv, args), 'Int', 'int64')
+    err = V('(%s %s)' % (fe, args), 'Any', 'error')
+    vc.range_assume(val, ex.reach)
+    ex.vals[ins['n']] = [val, err]
+
+
+pure('strings.TrimSpace')
+
